@@ -16,7 +16,9 @@ I_route == { I(n, FALSE, FALSE, TRUE, 0, 1) : n \in N_tree }
 \* (signed => params; without params or signature there is no digest to get wrong)
 I_gate0 == { x \in { I(AB, p, s, d, 0, 1) : p \in BOOLEAN, s \in BOOLEAN, d \in BOOLEAN } :
               (x.signed => x.params) /\ (~x.params => x.digOk) }
-I_gate == I_gate0 \cup { PE(x) : x \in { y \in I_gate0 : y.params } }
+\* plus a signed Interest WITHOUT ApplicationParameters (InterestSignatureInfo / Value only): it carries a signature, so
+\* it needs a correct parameters digest - and has none
+I_gate == I_gate0 \cup { PE(x) : x \in { y \in I_gate0 : y.params } } \cup { I(AB, FALSE, TRUE, FALSE, 0, 1) }
 \* reply / token: lifetimes 1,2 and tokens none, t1, t2
 \* lifetime 0 (the Interest expires at once) included
 I_reply == { I(AB, FALSE, FALSE, TRUE, t, l) : t \in 0..2, l \in 0..2 }
